@@ -100,8 +100,17 @@ Definition handlers_of (fn op : string) : handlers :=
   end.
 Definition calls_of (fn : string) : list string :=
   match slookup fn call_table with Some l => l | None => [] end.
-Definition commits (fn : string) : bool :=
+Definition commits_direct (fn : string) : bool :=
   existsb (fun c => String.eqb (substring (String.length c - 7) 7 c) ".commit") (calls_of fn).
+(* a handler commits itself or through WSGIApp._update_identifiable *)
+Definition commits (fn : string) : bool :=
+  commits_direct fn || (mem_s "self._update_identifiable" (calls_of fn) && commits_direct "_update_identifiable").
+(* the calls of the finally block of the try/finally statement (no except clauses) around the call of [op] in [fn] *)
+Definition finally_of (fn op : string) : list string :=
+  match slookup fn finally_table with
+  | None => []
+  | Some ts => match find (fun t => mem_s op (fst t)) ts with Some t => snd t | None => [] end
+  end.
 Definition raises (fn cls : string) : bool :=
   match slookup fn raise_table with Some l => mem_s cls l | None => false end.
 
@@ -137,6 +146,11 @@ Definition converted : list string := Eval vm_compute in
   match H_dispatch with (cls, ASwallow) :: _ => cls | _ => [] end.
 
 Definition C_commit (fn : string) : bool := commits fn.
+(* WSGIApp._update_identifiable: refuses an id that belongs to another object, takes the object out of the store before
+   update_from and files it again in the finally block *)
+Definition U_conflict : bool := Eval vm_compute in raises "_update_identifiable" "Conflict".
+Definition U_discards : bool := Eval vm_compute in mem_s "self.object_store.discard" (calls_of "_update_identifiable").
+Definition U_readds : bool := Eval vm_compute in mem_s "self.object_store.add" (finally_of "_update_identifiable" "identifiable.update_from").
 
 (* status codes of werkzeug.exceptions (hand-written, tied by the correspondence) *)
 Definition http_code (cls : string) : Z :=
@@ -192,7 +206,7 @@ Definition obj_id (o : obj) : ident :=
 Definition obj_ids (o : obj) : option name :=
   match o with OShell s => sh_ids s | OSm s => sm_ids s | OCd c => cd_ids c end.
 
-(* objects are filed under a key: the id they had when they were added *)
+(* objects are filed under a key: the id they had when they were added (a PUT that changes the id files the object anew) *)
 (* st_backed: the object store is a LocalFileObjectStore: objects are re-read from their
    documents at every request, so a change that was not commit()ted is gone afterwards *)
 Record state := { st_objs : list (ident * obj); st_files : Files.st; st_backed : bool }.
@@ -310,6 +324,25 @@ Definition store_remove (s : state) (k : ident) (o : obj) : result state :=
   else Exc EKey.
 Definition store_set (s : state) (k : ident) (o : obj) : state :=
   {| st_objs := zreplace k o (st_objs s); st_files := st_files s; st_backed := st_backed s |}.
+(* MutableSet.discard(x): removes the object filed under x.id if it is x *)
+Definition store_discard (s : state) (k : ident) (o : obj) : state :=
+  if obj_id o =? k
+  then {| st_objs := zremove k (st_objs s); st_files := st_files s; st_backed := st_backed s |}
+  else s.
+(* WSGIApp._update_identifiable(identifiable, new) for the object o found under key k; o' is o after update_from(new).
+   Same id: updated in place.  Another id: 409 if the store holds an object under it (nothing has changed); otherwise
+   the object is discarded (filed under its old id), updated and added again (under its new id, at the end) *)
+Definition update_identifiable (s : state) (k : ident) (o o' : obj) : result state :=
+  if obj_id o' =? obj_id o then Ok (store_set s k o') else
+  do _ <- (match zlookup (obj_id o') (st_objs s) with
+           | Some _ => if U_conflict then http "Conflict" else Ok tt
+           | None => Ok tt
+           end);
+  let s1 := if U_discards then store_discard s k o else s in
+  if U_readds then store_add s1 o' else Ok s1.
+(* a PUT handler of an Identifiable: through _update_identifiable, or update_from + commit in place *)
+Definition put_identifiable (fn : string) (s : state) (k : ident) (o o' : obj) : result state :=
+  if mem_s "self._update_identifiable" (calls_of fn) then update_identifiable s k o o' else Ok (store_set s k o').
 Definition set_files (s : state) (f : Files.st) : state := {| st_objs := st_objs s; st_files := f; st_backed := st_backed s |}.
 (* a handler that changed live objects: kept only if it commit()s when the store is backed *)
 Definition persist (fn : string) (s s' : state) : state :=
@@ -665,7 +698,9 @@ Definition handler (ep : endpoint) (s : state) (r : request) : HR :=
     do a <- get_shell s (the_id (r_aas r));
     do v <- request_body fn r;
     match v with
-    | VShell a' => ok (store_set s (the_id (r_aas r)) (OShell a')) (respond fn 0 r None None)
+    | VShell a' =>
+      do s' <- put_identifiable fn s (the_id (r_aas r)) (OShell a) (OShell a');
+      ok s' (respond fn 0 r None None)
     | _ => Exc EAttr
     end
   | ep_delete_aas =>
@@ -712,7 +747,7 @@ Definition handler (ep : endpoint) (s : state) (r : request) : HR :=
       let ch := update_children (sm_ch sm) (sm_ch sm') in
       let new := {| sm_id := sm_id sm'; sm_ids := sm_ids sm'; sm_tok := sm_tok sm';
                     sm_quals := merge_quals (sm_quals sm) (sm_quals sm'); sm_ch := ch |} in
-      let s1 := store_set s i (OSm new) in
+      do s1 <- put_identifiable fn s i (OSm sm) (OSm new);
       let s2 := if sm_id sm =? sm_id sm' then s1
                 else store_set s1 (the_id (r_aas r))
                        (OShell (shell_with_refs a (zremove1 i (sh_refs a) ++ [sm_id sm']))) in
@@ -760,10 +795,10 @@ Definition handler (ep : endpoint) (s : state) (r : request) : HR :=
     match v with
     | VSm sm' =>
       let ch := update_children (sm_ch sm) (sm_ch sm') in
-      ok (store_set s (the_id (r_sm r))
-            (OSm {| sm_id := sm_id sm'; sm_ids := sm_ids sm'; sm_tok := sm_tok sm';
-                    sm_quals := merge_quals (sm_quals sm) (sm_quals sm'); sm_ch := ch |}))
-         (respond fn 0 r None None)
+      do s' <- put_identifiable fn s (the_id (r_sm r)) (OSm sm)
+                 (OSm {| sm_id := sm_id sm'; sm_ids := sm_ids sm'; sm_tok := sm_tok sm';
+                         sm_quals := merge_quals (sm_quals sm) (sm_quals sm'); sm_ch := ch |});
+      ok s' (respond fn 0 r None None)
     | _ => Exc EAttr
     end
   (* ---- submodel elements *)
@@ -965,7 +1000,9 @@ Definition handler (ep : endpoint) (s : state) (r : request) : HR :=
     do c <- get_cd s (the_id (r_cd r));
     do v <- request_body fn r;
     match v with
-    | VCd c' => ok (store_set s (the_id (r_cd r)) (OCd c')) (respond fn 0 r None None)
+    | VCd c' =>
+      do s' <- put_identifiable fn s (the_id (r_cd r)) (OCd c) (OCd c');
+      ok s' (respond fn 0 r None None)
     | _ => Exc EAttr
     end
   | ep_delete_concept_description =>
